@@ -74,3 +74,91 @@ Lemma ex_ijepa_run : exists o, ijepa_collate ex_jcfg ex_sizes (-1) 2 ex_jtrace =
 Proof.
   eexists. split; [vm_compute; reflexivity|]. simpl. repeat split.
 Qed.
+
+(* ------------------------------------------------------------------ sequences of calls on one collator object *)
+(* KDDinoMaskCollator(mask_ratio=(0.25, 0.5), mask_prob=0.5, mask_size=(3, 4), num_views=2, min_num_patches=2): a batch
+   of two (tensor x), a call without ctx, a batch of one (x as list of views) - budgets 2, -, 1 *)
+Definition ex_dseq : list (bool * Z * list draw) :=
+  [(true, 2,
+    [DUnif (1, 4) (3, 8) (3184018894412277, 9007199254740992);
+     DUnif (2, 1) (4, 1) (8662734777899223, 2251799813685248);
+     DUnif (-5422211472926497, 4503599627370496) (5422211472926497, 4503599627370496) (-108647772462797, 4503599627370496);
+     DRound 2; DRound 2; DInt 0 2 1; DInt 0 3 1;
+     DUnif (3, 8) (1, 2) (8895788717699361, 18014398509481984);
+     DUnif (2, 1) (5, 1) (489249789420845, 140737488355328);
+     DUnif (-5422211472926497, 4503599627370496) (5422211472926497, 4503599627370496) (4445842825659175, 4503599627370496);
+     DRound 3; DRound 1;
+     DUnif (2, 1) (5, 1) (2511962333630175, 562949953421312);
+     DUnif (-5422211472926497, 4503599627370496) (5422211472926497, 4503599627370496) (-8634119748761027, 9007199254740992);
+     DRound 1; DRound 3; DInt 0 3 0; DInt 0 2 1;
+     DUnif (2, 1) (2, 1) (2, 1);
+     DUnif (-5422211472926497, 4503599627370496) (5422211472926497, 4503599627370496) (-3372782405691929, 4503599627370496);
+     DRound 1; DRound 2; DInt 0 3 2; DInt 0 3 1;
+     DPerm [0%nat; 2%nat; 1%nat; 3%nat]]);
+   (false, 1, []);
+   (true, 1,
+    [DUnif (1, 4) (1, 2) (7276673324164023, 18014398509481984);
+     DUnif (2, 1) (4, 1) (4042298524172493, 1125899906842624);
+     DUnif (-5422211472926497, 4503599627370496) (5422211472926497, 4503599627370496) (1597910237209305, 4503599627370496);
+     DRound 2; DRound 2; DInt 0 2 1; DInt 0 3 2;
+     DPerm [1%nat; 0%nat]])].
+
+Definition bits (rows : list (list Z)) : mask := map (map (fun z => negb (z =? 0))) rows.
+
+Definition ex_dseq_out : list (res (unit * option (list mask))) :=
+  [Ok (tt, Some [bits [[0;0;0;0]; [0;1;1;0]; [0;1;1;0]]; bits [[0;0;0;0]; [0;0;0;0]; [0;0;0;0]];
+                 bits [[0;1;1;1]; [0;0;0;0]; [0;1;1;0]]; bits [[0;0;0;0]; [0;0;0;0]; [0;0;0;0]]]);
+   Ok (tt, None);
+   Ok (tt, Some [bits [[0;0;0;0]; [0;0;0;0]; [0;0;0;0]]; bits [[0;0;0;0]; [0;0;1;1]; [0;0;1;1]]])].
+
+Lemma ex_dseq_ok : Forall (fun cl => 0 <= snd (fst cl) /\ Forall draw_ok (snd cl)) ex_dseq.
+Proof.
+  assert (T : forall B tr, 0 <= B -> Forall draw_ok tr -> (fun cl : bool * Z * list draw => 0 <= snd (fst cl) /\ Forall draw_ok (snd cl)) (true, B, tr))
+    by (intros; split; assumption).
+  unfold ex_dseq. apply Forall_cons; [|apply Forall_cons; [|apply Forall_cons; [|apply Forall_nil]]].
+  - apply T; [lia|]. repeat (apply Forall_cons; [unfold draw_ok, rat_le; simpl; try lia|]); try apply Forall_nil.
+    apply perm_skip. apply perm_swap.
+  - simpl. split; [lia|apply Forall_nil].
+  - apply T; [lia|]. repeat (apply Forall_cons; [unfold draw_ok, rat_le; simpl; try lia|]); try apply Forall_nil.
+    apply perm_swap.
+Qed.
+
+Lemma ex_dseq_run : dino_seq ex_dcfg ex_dseq = ex_dseq_out.
+Proof. vm_compute. reflexivity. Qed.
+
+(* KDIjepaMaskCollator(input_size=(5, 6), patch_size=1, encoder_mask_scale=0.7, predictor_mask_scale=0.15,
+   predictor_aspect_ratio=1.0, num_enc_masks=1, num_pred_masks=2, min_keep=2, tries=2) on a NON-SQUARE 5 x 6 grid: a batch
+   of two (step 0), a call without ctx (no step), a batch of one (step 1); 2x2 predictor blocks, 4x5 encoder block *)
+Definition ex_jcfg2 : jcfg :=
+  {| jH := 5; jW := 6; jNEnc := 1%nat; jNPred := 2%nat; jMinKeep := 2; jTries := 2 |}.
+Definition ex_sizes2 : Z -> raw4 := fun _ => (2, 2, 5, 5).
+
+Definition ex_jseq : list (bool * Z * list draw) :=
+  [(true, 2, [DSeed 0; DInt 0 3 1; DInt 0 4 2; DInt 0 3 0; DInt 0 4 0; DInt 0 1 0; DInt 0 1 0;
+              DInt 0 3 1; DInt 0 4 0; DInt 0 3 2; DInt 0 4 3; DInt 0 1 0; DInt 0 1 0]);
+   (false, 1, []);
+   (true, 1, [DSeed 1; DInt 0 3 0; DInt 0 4 1; DInt 0 3 2; DInt 0 4 0; DInt 0 1 0; DInt 0 1 0])].
+
+Lemma ex_jseq_ok : Forall (fun cl => 0 <= snd (fst cl) /\ Forall draw_ok (snd cl)) ex_jseq.
+Proof.
+  unfold ex_jseq. apply Forall_cons; [|apply Forall_cons; [|apply Forall_cons; [|apply Forall_nil]]].
+  - split; [simpl; lia|]. simpl snd. repeat (apply Forall_cons; [simpl; try lia; exact I|]). apply Forall_nil.
+  - simpl. split; [lia|apply Forall_nil].
+  - split; [simpl; lia|]. simpl snd. repeat (apply Forall_cons; [simpl; try lia; exact I|]). apply Forall_nil.
+Qed.
+
+Lemma ex_jseq_run :
+  map (fun r => (fst r, match snd r with Some o => Some (o_ctr o, o_psize o, o_esize o, o_enc o, o_pred o) | None => None end))
+      (ijepa_seq ex_jcfg2 ex_sizes2 (-1) ex_jseq) =
+  [(-1, Some (0, (2, 2), (4, 5), [[2; 3; 4; 10; 12; 13; 16; 18; 19; 20; 21; 22]; [0; 1; 2; 3; 4; 8; 9; 10; 14; 18; 19; 20]],
+              [[8; 9; 14; 15]; [6; 7; 12; 13]; [0; 1; 6; 7]; [15; 16; 21; 22]]));
+   (0, None);
+   (0, Some (1, (2, 2), (4, 5), [[0; 3; 4; 6; 9; 10; 14; 15; 16; 20; 21; 22]], [[1; 2; 7; 8]; [12; 13; 18; 19]]))].
+Proof. vm_compute. reflexivity. Qed.
+
+Lemma ex_jcfg2_ok : jcfg_ok ex_jcfg2.
+Proof. unfold jcfg_ok; simpl; lia. Qed.
+Lemma ex_sizes2_ok : sizes_ok ex_sizes2.
+Proof. intros s. simpl. lia. Qed.
+Lemma ex_jseq_ctrs : map fst (ijepa_seq ex_jcfg2 ex_sizes2 (-1) ex_jseq) = [-1; 0; 0].
+Proof. vm_compute. reflexivity. Qed.
